@@ -79,6 +79,7 @@ def body(S, t, part):
         t.loop.late = late
         t0 = t.loop.time()
         rs = show.play(speed=speed, loops=loops, start_step=start_step, sync_ms=0,
+                       events_when_advanced=["vs_advanced"], events_when_stepped_back=["vs_stepped_back"],
                        events_when_played=["vs_played"], events_when_looped=["vs_looped"], events_when_completed=["vs_completed"],
                        events_when_stopped=["vs_stopped"], events_when_paused=["vs_paused"], events_when_resumed=["vs_resumed"])
         ctx = rs.context
@@ -95,6 +96,7 @@ def body(S, t, part):
         horizon = 9.0
         ctl_at = S.real("control_at", 0.01, 4) if ctl else None
         resume_gap = S.real("resume_gap", 0.01, 3) if ctl == "pause_resume" else None
+        adv_gaps = [S.real("advance_gap%d" % k, 0.01, 1.5) for k in range(2)] if ctl == "advance_multi" else []
         # ---- run ----
         if ctl:
             t.advance_time_and_run(ctl_at)
@@ -107,6 +109,11 @@ def body(S, t, part):
                 rs.resume()
             elif ctl == "advance":
                 rs.advance()
+            elif ctl == "advance_multi":
+                rs.advance()
+                for g in adv_gaps:
+                    t.advance_time_and_run(g)
+                    rs.advance()
             elif ctl == "step_back":
                 rs.step_back()
         t.advance_time_and_run(horizon)
@@ -125,6 +132,10 @@ def body(S, t, part):
     ctl_done = ctl is None or ctl == "stop"
     t_ctl = t0 + ctl_at if ctl else None
     t_res = (t_ctl + resume_gap) if ctl == "pause_resume" else None
+    pending_adv = []
+    if ctl == "advance_multi":
+        pending_adv = [t_ctl, t_ctl + adv_gaps[0], t_ctl + adv_gaps[0] + adv_gaps[1]]
+        ctl_done = True
     n_loops = 0
     completed = False
     exp = []
@@ -147,11 +158,15 @@ def body(S, t, part):
                     i = i - 2                         # the step before the current one
                     if i < 0:
                         i %= 3
+        if pending_adv:
+            S.assume(tcur != pending_adv[0])
+            if pending_adv[0] < tcur:
+                tcur = pending_adv.pop(0)         # this advance makes the next step run now
         if ctl == "stop":
             S.assume(tcur != t_ctl)
             if tcur > t_ctl:
                 break
-        end_of_run = t0 + (ctl_at or 0) + (resume_gap or 0) + horizon
+        end_of_run = t0 + (ctl_at or 0) + (resume_gap or 0) + sum(adv_gaps) + horizon
         S.assume(tcur != end_of_run)
         if tcur > end_of_run:
             break
@@ -165,7 +180,7 @@ def body(S, t, part):
                 n_loops += 1
             else:
                 completed = True
-                if ctl and not ctl_done and ctl != "stop":
+                if (ctl and not ctl_done and ctl != "stop") or pending_adv:
                     S.assume(False)        # a control operation on a show that has already completed: outside the statement
                 break
         exp.append((i, tcur))
@@ -190,7 +205,7 @@ def body(S, t, part):
         raise Violation("played-and-stopped-events-once", "RunningShow.stop", "events %s" % ev)
     if completed and ev["completed"] != 1 or (not completed and ev["completed"] != 0):
         raise Violation("completed-event-once-at-the-end", "RunningShow._run_next_step", "completed=%s events %s" % (completed, ev))
-    if ev["looped"] != n_loops and completed and not truncated:
+    if ev["looped"] != n_loops and (completed or ctl == "advance_multi") and not truncated:
         raise Violation("looped-event-once-per-loop", "RunningShow._run_next_step", "looped events %d, loops done %d" % (ev["looped"], n_loops))
     # ---- cleanup --------------------------------------------------------------------------------
     left = _show_keys(m, ctx)
@@ -314,7 +329,8 @@ def body_player(S, t, part):
 def scenarios(tier):
     parts = [dict(control=None, loops=None, start_step="sym"), dict(control=None, loops=1, start_step=1), dict(control="stop", loops=-1, start_step=1),
              dict(control="pause_resume", loops=1, start_step=1), dict(control="advance", loops=1, start_step=1), dict(control="step_back", loops=1, start_step=1),
-             dict(control="pause_resume", loops=-1, start_step=2), dict(control="stop", loops=0, start_step="sym")]
+             dict(control="pause_resume", loops=-1, start_step=2), dict(control="stop", loops=0, start_step="sym"),
+             dict(control="advance_multi", loops=-1, start_step=1), dict(control="advance_multi", loops=2, start_step="sym")]
     if tier != "quick":
         parts += [dict(control=c, loops=None, start_step="sym") for c in ("stop", "pause_resume", "advance", "step_back")]
     pb = 80 if tier == "quick" else 400
